@@ -6,7 +6,7 @@ From V.lib Require Import Base.
 From V.c09 Require Import C09Model C09Spec C09BaseProofs C09SttsProofs C09CttsProofs C09StscProofs C09TrakProofs C09TimeProofs C09CacheProofs.
 From V.c09 Require Import C09BuildModel C09BuildCttsProofs C09BuildStscProofs.
 From V.c09 Require Import C09ArithProofs C09PureModel C09PureProofs.
-From V.c09 Require Import C09TimeCodeModel C09TimeCodeProofs C09RowsModel C09RowsProofs.
+From V.c09 Require Import C09TimeCodeModel C09TimeCodeProofs C09RowsModel C09RowsProofs C09TimeCodePastProofs.
 
 (* a concrete non-trivial consistent table set: 7 samples, 3 stts runs, ctts, 2 stsc entries over 3 chunks,
    explicit sizes, stco, stss, sdtp *)
@@ -432,4 +432,22 @@ Example ex_rows :
   ids_ok [(1, 2147483648, 1); (3, 1, 1)] = true /\ rows_ok [(1, 2147483648, 1); (3, 1, 1)] 3 = true /\
   raw_ok [(1, 2147483648, 1); (3, 1, 1)] = false /\
   sumN (chunk_counts (S_entries [(1, 2147483648, 1); (3, 1, 1)]) 3) = 4294967297.
+Proof. vm_compute. repeat split. Qed.
+
+(* ================= GetTimeCode outside 1..N (C09TimeCodePastProofs.v) =================
+   Unlike GetDecodeTime (C09_decode_time_past_end: Panic) GetTimeCode has an answer for sample number 0 and for
+   every number past the last sample, for EVERY table with fewer than 2^32 samples: the time code of the END of
+   the track (sum of all durations) - no panic, and there is no error result.  Outside the property's range; stated
+   so that the behaviour the correspondence compares there is a theorem and not only a transcription. *)
+Theorem C09_time_code_past_end : forall cs ds n ts, lenN cs = lenN ds -> forallb is_u32 ds = true ->
+  sumN cs < 4294967296 -> n = 0 \/ sumN cs < n -> n < 4294967296 -> 0 < ts -> ts < 4294967296 ->
+  1000000000 * sumN (expand_rl cs ds) / ts < 9223372036854775808 ->
+  stts_get_time_code cs ds n ts = Ok (S_time_code (sumN (expand_rl cs ds)) ts).
+Proof. exact time_code_past_end. Qed.
+Print Assumptions C09_time_code_past_end.
+Example ex_time_code_past_end :
+  sumN (expand_rl (t_stts_count ex_tb) (t_stts_delta ex_tb)) = 65 /\
+  stts_get_time_code (t_stts_count ex_tb) (t_stts_delta ex_tb) 0 1000 = Ok 65000000%Z /\
+  stts_get_time_code (t_stts_count ex_tb) (t_stts_delta ex_tb) 8 1000 = Ok 65000000%Z /\
+  stts_get_time_code (t_stts_count ex_tb) (t_stts_delta ex_tb) 4294967295 1000 = Ok 65000000%Z.
 Proof. vm_compute. repeat split. Qed.
